@@ -1928,6 +1928,9 @@ def run_cache_read_policy(tier, log, seed):
     analyse("storage_ref", r"\(_1: &CacheDB<", r"as (primitives::db::)?DatabaseRef>::storage_ref$", (ADDR_ACC, U), ["NotExisting", "StorageCleared"], False)
     analyse("block_hash", r"\(_1: &mut CacheDB<", r"as (primitives::db::)?DatabaseRef>::block_hash_ref$", (B256_, None), [], False)
     analyse("block_hash_ref", r"\(_1: &CacheDB<", r"as (primitives::db::)?DatabaseRef>::block_hash_ref$", (B256_, None), [], False)
+    CODE = r"FixedBytes<32>, Bytecode"
+    analyse("code_by_hash", r"\(_1: &mut CacheDB<", r"as (primitives::db::)?DatabaseRef>::code_by_hash_ref$", (CODE, None), [], False)
+    analyse("code_by_hash_ref", r"\(_1: &CacheDB<", r"as (primitives::db::)?DatabaseRef>::code_by_hash_ref$", (CODE, None), [], False)
     q, tm = duo.queries, duo.time
     duo.close()
     res = dict(queries=q, solver_s=tm, engine="mir provenance-flow -> smtlib (z3 4.8.12 + cvc5 1.0)", bounds="; ".join(samples),
